@@ -109,6 +109,15 @@ theorem ng_search_history_independent (h h' : SM.Heu) (s s' : Store) (n : Nat) (
     emit their models after different histories is not claimed by the property and is not proved
     equal (it is nevertheless compared handle for handle with the model on every explored history). -/
 
+/-- non-vacuity of the history-independence theorems: two (here identical) well-formed stores whose
+condition handles denote the same functions -/
+example : WF Store.init ∧ [1, 0].length = 2 ∧ (∀ t ∈ [1, 0], t < Store.init.nodes.size) ∧
+    [1, 0].map (eval Store.init) = [1, 0].map (eval Store.init) := by
+  refine ⟨WF_init, rfl, ?_, rfl⟩
+  intro t ht
+  simp at ht
+  rcases ht with h | h <;> subst h <;> simp [Store.init]
+
 example : WF Store.init := WF_init
 
 end C11
